@@ -11,3 +11,5 @@ pub mod val_ref;
 pub mod authsim;
 pub mod cache_ref;
 pub mod zonefile_printer;
+pub mod tsig_ref;
+pub mod update_ref;
